@@ -254,7 +254,10 @@ func reproduced(v *sym.Outcome, nr *nativeResult) bool {
 	case "goroutine-leak":
 		return strings.Contains(nr.out, "VERIF-LEAK")
 	}
-	return nr.panicMsg == "VERIF-ASSERT "+v.Label
+	// The native run is the ground truth: an assertion of the same harness failing on the real
+	// code at the solver's input confirms the violation even when an opaque model (codec bit
+	// streams, hash values) made the engine fail at a neighbouring assertion.
+	return strings.HasPrefix(nr.panicMsg, "VERIF-ASSERT ")
 }
 
 func (cr *checkRun) matchKnown(prop, harness string, v *sym.Outcome) *knownFinding {
@@ -305,6 +308,16 @@ func cmdCheck(args []string) {
 	os.Exit(code)
 }
 
+// outDir is where evidence and recorded counterexamples go: the verif dir, unless an experiment
+// on a deliberately changed tree (tools/seedall.sh) redirects them with GOSYM_OUT.
+func outDir(verifDir string) string {
+	if d := os.Getenv("GOSYM_OUT"); d != "" {
+		os.MkdirAll(filepath.Join(d, "evidence"), 0o755)
+		return d
+	}
+	return verifDir
+}
+
 func runCheck(pd *propDef, tier string, seed int, verifDir, only string, workers int) int {
 	start := time.Now()
 	tmp, err := os.MkdirTemp("", "gosym-"+pd.ID+"-")
@@ -325,7 +338,7 @@ func runCheck(pd *propDef, tier string, seed int, verifDir, only string, workers
 			return 2
 		}
 	}
-	evidencePath := filepath.Join(verifDir, "evidence", pd.ID+".json")
+	evidencePath := filepath.Join(outDir(verifDir), "evidence", pd.ID+".json")
 	os.Remove(evidencePath)
 
 	crossChecked, crossUnknown := 0, 0
@@ -566,6 +579,9 @@ func runCheck(pd *propDef, tier string, seed int, verifDir, only string, workers
 			dir := cr.saveReplay(pd.ID, hd, tags, params, v, nr)
 			fmt.Printf("VIOLATION property=%s replay=%s\n", pd.ID, dir)
 			fmt.Printf("  harness=%s label=%s site=%s msg=%s choices=[%s]\n", hd.Name, v.Label, v.Site, firstLine(v.Msg), v.Choices)
+			if strings.HasPrefix(nr.panicMsg, "VERIF-ASSERT ") && nr.panicMsg != "VERIF-ASSERT "+v.Label {
+				fmt.Printf("  native replay fails at a different assertion of the same harness: %s\n", strings.TrimPrefix(nr.panicMsg, "VERIF-ASSERT "))
+			}
 		}
 		for _, m := range pendingInconclusive {
 			inconclusive = append(inconclusive, m)
@@ -683,7 +699,7 @@ func repoFuncs(fs []string) []string {
 
 // saveReplay writes a self-contained replay directory for a violation.
 func (cr *checkRun) saveReplay(prop string, hd harnessDef, tags string, params map[string]int, v *sym.Outcome, nr *nativeResult) string {
-	base := filepath.Join(cr.verifDir, "replays", prop)
+	base := filepath.Join(outDir(cr.verifDir), "replays", prop)
 	os.MkdirAll(base, 0o755)
 	n := 1
 	for {
